@@ -29,6 +29,7 @@ package stack
 //@   ensures push.len: len(s.entries) == old(len(s.entries)) + 1
 //@   ensures push.keep: forall i in 0..old(len(s.entries)) :: s.entries[i] === old(s.entries[i])
 //@   ensures push.top: s.entries[old(len(s.entries))] === value
+//@   ensures push.arr: arr(s.entries) == old(arr(s.entries)) || fresh(s.entries)
 //@   panics never
 //@
 //@ func (s *Stack) Pop() (result object.Object, err error)
